@@ -86,7 +86,13 @@ func c18ModelSetup(in *mj.Interp) {
 		return nil
 	}
 	in.Funcs["apiLetGlobal"] = func(in *mj.Interp, a []interface{}) interface{} { in.APILetGlobal(a[0].(string), a[1]); return nil }
-	in.Funcs["apiResolve"] = func(in *mj.Interp, a []interface{}) interface{} { v, _ := in.APIResolve(a[0].(string)); return v }
+	in.Funcs["apiResolve"] = func(in *mj.Interp, a []interface{}) interface{} {
+		if a[0].(string) == "." {
+			return in.Ctx() // '.' is an identifier like any other to Resolve
+		}
+		v, _ := in.APIResolve(a[0].(string))
+		return v
+	}
 	in.Funcs["apiCtx"] = func(in *mj.Interp, a []interface{}) interface{} { return in.Ctx() }
 	in.Funcs["apiYield"] = func(in *mj.Interp, a []interface{}) interface{} {
 		var ok bool
@@ -166,6 +172,10 @@ func (g *c18Gen) stmts(depth int, vis []string) []*mj.Node {
 			out = append(out, api("apiSetOrLet", mj.Str(name), g.val()))
 			vis = with(vis, name)
 		case 6:
+			if g.n(0, 2, "resolveDot") == 0 {
+				g.labels["api-resolve-dot"] = true
+				out = append(out, mj.Text("(resolve .="), api("apiResolve", mj.Str(".")), mj.Text(")"))
+			}
 			if len(vis) > 0 {
 				v := vis[g.n(0, len(vis)-1, "resolvename")]
 				g.labels["api-resolve"] = true
@@ -241,6 +251,9 @@ func c18Twin(ns []*mj.Node) []*mj.Node {
 				c = *mj.Set(a[0].S, a[1])
 			case "apiResolve":
 				c = *mj.Print(mj.Var(a[0].S))
+				if a[0].S == "." {
+					c = *mj.Print(mj.Dot())
+				}
 			case "apiCtx":
 				c = *mj.Print(mj.Dot())
 			case "apiYield":
